@@ -1,6 +1,7 @@
 package main
 
 import (
+	"go/token"
 	"fmt"
 	"go/ast"
 	"go/types"
@@ -673,5 +674,87 @@ func c36Extra(r *Run) error {
 func c37Extra(r *Run) error {
 	r.boundedGoTest("C37-roundtrip", "ParseDuration(FormatDuration(d, true)) == d, and the documented spaced / day-suffixed spellings parse",
 		"every whole second in [-48h, 48h]; sign x days {0,1,2,9,10,99,100,365,1000,9999,10000,41665,41666} x hours {0,1,2,9,10,11,12,22,23} x minutes, seconds {0,1,2,9,10,30,58,59} (|d| <= 10^6 h); seven documented spellings")
+	return nil
+}
+
+// c32Extra: structural obligations behind "the route chosen is a function of the table, the method and the path":
+// FindRoute ranges over a map exactly once (the collection of candidates), that range carries nothing from one
+// iteration to the next except appending to the candidate list, sortCandidates is called after it, and FindRoute
+// consults no clock and no random source.
+func c32Extra(r *Run) error {
+	rp := modInternal + "router"
+	src := r.Prog.FuncDecls["(*"+rp+".Router).FindRoute"]
+	if src == nil || src.Decl.Body == nil {
+		r.table("C32/find-route-structure", false, "FindRoute not found", "")
+		return nil
+	}
+	info := src.Pkg.TypesInfo
+	var mapRanges []*ast.RangeStmt
+	var sortPos, firstMapRangeEnd token.Pos
+	var bad []string
+	ast.Inspect(src.Decl.Body, func(n ast.Node) bool {
+		switch x := n.(type) {
+		case *ast.RangeStmt:
+			if _, ok := info.TypeOf(x.X).Underlying().(*types.Map); ok {
+				mapRanges = append(mapRanges, x)
+				if firstMapRangeEnd == 0 {
+					firstMapRangeEnd = x.End()
+				}
+			}
+		case *ast.CallExpr:
+			if fn, ok := typeutil.Callee(info, x).(*types.Func); ok && fn.Pkg() != nil {
+				switch {
+				case fn.FullName() == rp+".sortCandidates":
+					if sortPos == 0 {
+						sortPos = x.Pos()
+					}
+				case fn.Pkg().Path() == "math/rand" || fn.Pkg().Path() == "math/rand/v2" || fn.Pkg().Path() == "crypto/rand":
+					bad = append(bad, "calls "+fn.FullName())
+				case fn.FullName() == "time.Now" || fn.FullName() == "time.Since":
+					bad = append(bad, "calls "+fn.FullName())
+				}
+			}
+		}
+		return true
+	})
+	if len(mapRanges) != 1 {
+		bad = append(bad, fmt.Sprintf("%d ranges over a map (want exactly the collection loop)", len(mapRanges)))
+	}
+	if sortPos == 0 || sortPos < firstMapRangeEnd {
+		bad = append(bad, "sortCandidates is not called after the collection loop")
+	}
+	if len(mapRanges) >= 1 {
+		// variables declared outside the collection loop and assigned inside it
+		loop := mapRanges[0]
+		carried := map[string]bool{}
+		ast.Inspect(loop.Body, func(n ast.Node) bool {
+			var lhs []ast.Expr
+			switch x := n.(type) {
+			case *ast.AssignStmt:
+				lhs = x.Lhs
+			case *ast.IncDecStmt:
+				lhs = []ast.Expr{x.X}
+			}
+			for _, l := range lhs {
+				if id, ok := ast.Unparen(l).(*ast.Ident); ok {
+					obj := info.Uses[id]
+					if obj == nil {
+						obj = info.Defs[id]
+					}
+					if obj != nil && (obj.Pos() < loop.Pos() || obj.Pos() > loop.End()) {
+						carried[id.Name] = true
+					}
+				}
+			}
+			return true
+		})
+		for name := range carried {
+			if name != "candidates" {
+				bad = append(bad, "the collection loop carries "+name+" from one iteration to the next")
+			}
+		}
+	}
+	sort.Strings(bad)
+	r.table("C32/find-route-structure", len(bad) == 0, "FindRoute's only map range is the collection of candidates (which carries nothing between iterations but the list), the list is sorted canonically after it, and no clock or random source is consulted", strings.Join(bad, "; "))
 	return nil
 }
